@@ -1,5 +1,6 @@
 (* driver for the scheduler / task-runner model (C17)
    sched <c0> <T> <W> <choices ','>      -> completed|submitted|cstep|pending|restart_cstep|restart_locked  or NONE
+   prefix <c0> <T> <W> <n> <choices ','>  -> same fields, for the run stopped after n consumed results
    runner <w> <ev> <ev> ...               ev = S | T<w> | R<w>:<v> | E<w>:<v> | D | X
         -> ACCEPT executed|delivered|queue|quiescent   or REJECT@<i> *)
 let s_nats l = string_of_list string_of_nat l
@@ -24,6 +25,15 @@ let handle toks =
      | None -> "NONE"
      | Some s -> String.concat "|" [ s_nats s.completed; string_of_nat s.submitted; string_of_nat s.cstep;
                                      s_nats s.pending; string_of_nat s.restart_cstep; s_nats s.restart_locked ])
+  | ["prefix"; c0; t; w; n; ch] ->
+    (* the state after the start-up phase and the first n iterations of the main loop (SchedCrashP.main_prefix) *)
+    let w' = nat_of_string w in
+    (match init_phase (nat_of_string (string_of_int (int_of_string w + 2))) (start (nat_of_string c0) (nat_of_string t) w') with
+     | None -> "NONE"
+     | Some s0 ->
+       let s = main_prefix (nat_of_string n) s0 (list_of_string nat_of_string ch) in
+       String.concat "|" [ s_nats s.completed; string_of_nat s.submitted; string_of_nat s.cstep;
+                           s_nats s.pending; string_of_nat s.restart_cstep; s_nats s.restart_locked ])
   | "runner" :: w :: evs ->
     let rec go r i = function
       | [] -> "ACCEPT " ^ String.concat "|" [
